@@ -323,6 +323,7 @@ pub use crate::interned::{HashEqLike, Lookup};
 /// Verification hooks; exist only with `--cfg salsa_verif` (see /verif/MANIFEST.json).
 #[cfg(salsa_verif)]
 pub mod verif_hooks {
+    pub use crate::interned::verif_hooks as interned;
     pub use crate::table::verif_hooks as table;
     /// Process-global trace sink (see `src/verif_trace.rs`).
     pub mod trace {
